@@ -188,6 +188,8 @@ ConcVerdict(r) ==
 \* the sequential properties at QUIESCENCE after a concurrent run (every thread joined, the merger stopped)
 QuiescentVerdict(r) ==
     IF r.ev # "conc" \/ Has(r, "abort") \/ r.kind # "stress-final" \/ ~Has(r, "stats_bad") THEN OK
+    ELSE IF Has(r, "counter_overflow_panics") /\ r.counter_overflow_panics # <<>>
+           THEN V("C19", "during a concurrent run arithmetic on the store's counters overflowed: " \o r.counter_overflow_panics[1])
     ELSE IF r.stats_bad # <<>> THEN V("C19", "after a concurrent run the counters differ from the files: " \o r.stats_bad[1])
     ELSE IF r.index_bad # "" THEN V("C19", "after a concurrent run " \o r.index_bad)
     ELSE IF r.after_restart # r.reads_before_close THEN V("C02", "after a concurrent run a restart reads differently from the store before the close")
